@@ -42,12 +42,15 @@ CLAIMS = {
     "C06": ("6 theorems (ValidaProofs/C06.lean): aggregates, stable sort by path length (sort key read from the source), cast-free rules "
             "judged independently, permutation invariance of validity / failure count / tested count. The textual report is checked on the "
             "implementation only (always a str naming every failing path).", "DESIGN.md section 7 C06"),
-    "C07": ("6 theorems (ValidaProofs/C07.lean): for modifier-free paths and value-kind literal-argument conditions, the walk, the "
-            "selection, a rule test and a whole cast-free validation raise nothing whatever the document; a declared cast raises nothing "
-            "(except-tuple of Rule.test generated from the source). PARTIAL for schemas with casts: the write-back `setAt` is shown not to "
-            "fail only by the differential run and the direct never-raises predicate on type-hostile documents, not by a theorem.",
-            "DESIGN.md section 7 C07"),
-    "C15": ("10 theorems (ValidaProofs/C15.lean): cast tables of the source, cast_string_to_bool, uncastable types untouched, a failing cast "
+    "C07": ("7 theorems (ValidaProofs/C07.lean, C07Casts.lean). Headline `C07_validate_total`: for every schema of modifier-free paths, "
+            "value-kind literal-argument conditions and casts declared from `str`, and every well-formed document (hashable, pairwise "
+            "unequal mapping keys), `validate` raises nothing - casts included: the write-back into the working copy cannot fail because "
+            "the copy keeps the document's shape (invariant `Rel`). Also: the walk, the selection, a rule test and a declared cast raise "
+            "nothing (except-tuple of Rule.test generated from the source). Differential run and a direct never-raises predicate on "
+            "type-hostile documents.", "DESIGN.md section 7 C07"),
+    "C15": ("12 theorems (ValidaProofs/C15.lean, C07Casts.lean). Headline `C15_cast_data_is_document_with_casts`: every node of the "
+            "document is found at the same path in the cast data, unchanged unless it is a string, and then either unchanged or the result of "
+            "one of the declared casts on that string; with no casts the cast data equals the document. Also: cast tables of the source, cast_string_to_bool, uncastable types untouched, a failing cast "
             "leaves the node, the rule is judged on the copy, one-level write semantics, nothing castable leaves the copy unchanged, cast data "
             "is the copy after all rules. The model is purely functional: that the caller's document is untouched is checked on the "
             "implementation (C08). Differential run over castable/uncastable strings under keys of every type.",
